@@ -500,6 +500,7 @@ impl Mode for RunMode {
                 expect.insert(a, v);
             }
             let code: Vec<u32> = rc.mem.iter().map(|(a, _)| *a & 0xffffff).collect();
+            let mut ports = false;
             for e in field(&s, "stores").unwrap_or("").split(',').filter(|e| !e.is_empty()) {
                 if let Some((a, v)) = e.split_once(':') {
                     let a64 = u64::from_str_radix(a, 16).unwrap_or(u64::MAX);
@@ -513,7 +514,12 @@ impl Mode for RunMode {
                     }
                     let plain = (a <= 0xff) || (0x400000..=0x5fffff).contains(&a) || (0xffbf20..=0xffff1f).contains(&a);
                     let special = (0xfee000..=0xfee0ff).contains(&a) || (0xffff20..=0xffffe9).contains(&a);
-                    if special || code.contains(&a) {
+                    let port_reg = (0xfee000..=0xfee00a).contains(&a) || (0xffffd0..=0xffffda).contains(&a);
+                    if port_reg {
+                        // direction / data register of a port: what the data register then shows is C16's subject, but the
+                        // pin levels set by ioport lines (below) are still C18's
+                        ports = true;
+                    } else if special || code.contains(&a) {
                         dom = false; // peripheral registers / the running code: outside what C18 states
                     } else if plain {
                         expect.insert(a, v);
@@ -540,7 +546,15 @@ impl Mode for RunMode {
             if dom && !tcp {
                 if stopped && outcome != "stopped" && outcome != "finished" {
                     why = format!("cmd:stop was received but the run ended as {}", outcome);
-                } else if field(imp, "mem").unwrap_or("") != want_mem.join(",") {
+                } else if {
+                    let port_cell = |e: &&str| -> bool {
+                        let a = u32::from_str_radix(e.split(':').next().unwrap_or(""), 16).unwrap_or(0);
+                        (0xfee000..=0xfee00a).contains(&a) || (0xffffd0..=0xffffda).contains(&a)
+                    };
+                    let got: Vec<&str> = field(imp, "mem").unwrap_or("").split(',').filter(|e| !e.is_empty() && !(ports && port_cell(e))).collect();
+                    let want: Vec<&str> = want_mem.iter().map(|x| x.as_str()).filter(|e| !(ports && port_cell(e))).collect();
+                    got != want
+                } {
                     why = format!("memory after the lines: [{}], expected from the lines in order: [{}]", clip(field(imp, "mem").unwrap_or("")), clip(&want_mem.join(",")));
                 } else if field(imp, "pins").unwrap_or("") != want_pins.join(",") {
                     why = format!("pin levels {} expected {}", field(imp, "pins").unwrap_or(""), want_pins.join(","));
